@@ -19,6 +19,7 @@ from asphalt.core import (
     Context,
     ResourceConflict,
     ResourceNotFound,
+    stream_events,
 )
 from asphalt.core._context import ResourceEvent  # public class (re-exported in asphalt.core too)
 
@@ -258,6 +259,11 @@ class Env:
                     raise ZeroDivisionError("broken filter")
                 h.bf_cm = ctx.resource_added.stream_events(broken_filter, max_queue_size=100000)
                 h.bf_it = await h.bf_cm.__aenter__()
+            if len(self.hs) >= 2 and h.idx % 3 == 2:
+                # ... and somebody followed several contexts at once through ONE stream and has left it again, in
+                # the ordinary way: nothing of that listener is left behind in any of them
+                async with stream_events([self.hs[0].ctx.resource_added, self.hs[1].ctx.resource_added, ctx.resource_added]):
+                    pass
             h.cm = ctx.resource_added.stream_events(max_queue_size=100000)
             h.it = await h.cm.__aenter__()
             # a listener that reads what it has received only at the very end
